@@ -281,6 +281,71 @@ def r6_streamable(ctx):
     ctx.ob(nf.where, "without stream arguments the function is called directly", ok, "", key="C11-R6|direct")
 
 
+def r7_unwrap_writeback_twins(ctx):
+    """(a) every comprehension that unwraps operands (`x._node if isinstance(x, T) else x for x in operands`) unwraps the operand itself, never the receiver;
+    (b) compute(): results of the jointly evaluated nodes are written back to the positions the nodes were taken from;
+    (c) the streamed get_windows computes the same flanks and interval columns as its in-memory twin."""
+    ix = ctx.index
+    n = 0
+    for fi in ix.all_functions():
+        if isinstance(fi.node, ast.Lambda) or not fi.module.name.startswith("bionumpy.") or ".util.testing" in fi.module.name:
+            continue
+        for c in body_walk(fi.node):
+            if not (isinstance(c, (ast.ListComp, ast.GeneratorExp)) and isinstance(c.elt, ast.IfExp) and isinstance(c.elt.test, ast.Call) and u(c.elt.test.func) == "isinstance"
+                    and len(c.generators) == 1 and isinstance(c.generators[0].target, ast.Name) and c.elt.test.args and u(c.elt.test.args[0]) == c.generators[0].target.id):
+                continue
+            v = c.generators[0].target.id
+            n += 1
+            names = {x.id for x in ast.walk(c.elt.body) if isinstance(x, ast.Name)}
+            ctx.ob(fi.where, f"operands of type {u(c.elt.test.args[1])} are unwrapped one by one: the unwrapped value is taken from the operand `{v}` itself", v in names,
+                   u(c)[:140], key=f"C11-R7|unwrap|{fi.module.name}|{fi.qualname}|{u(c.elt.test.args[1])}")
+    ctx.floor("operand-unwrapping comprehensions", n, 6)
+    f = ix.func(CG, "_compute")
+    env = local_env(f.node)
+    loops = [x for x in body_walk(f.node) if isinstance(x, ast.For) and isinstance(x.iter, ast.Call) and u(x.iter.func) == "enumerate" and isinstance(x.target, ast.Tuple)]
+    ctx.need(len(loops) == 1, "_compute: write-back loop not found")
+    lp = loops[0]
+    k, pos = (u(t) for t in lp.target.elts)
+    idxs = u(lp.iter.args[0])
+    taken = env.get("results")
+    ok_taken = taken is not None and any(isinstance(x, ast.ListComp) and sym.canon(x) == sym.canon(sym.parse_expr(f"[args[i] for i in {idxs}]")) for x in ast.walk(taken))
+    ctx.ob(f.where, f"the nodes are taken from the positions listed in `{idxs}`, in that order", ok_taken, u(taken)[:120] if taken is not None else "", key="C11-R7|compute-taken")
+    st = [x for x in lp.body if isinstance(x, ast.Assign) and isinstance(x.targets[0], ast.Subscript)]
+    ok = len(st) == 1 and u(st[0].targets[0].slice) == pos and isinstance(st[0].value, ast.Subscript) and u(st[0].value.value) == "results" and u(st[0].value.slice) == k
+    ctx.ob(f.where, f"the k-th result goes back to position {idxs}[k] (not to position k: concrete values before a node keep their place)", ok, u(st[0]) if st else "", key="C11-R7|compute-writeback")
+    ok = sym.same(env.get(idxs), "[i for i, a in enumerate(args) if isinstance(a, Node)]")
+    ctx.ob(f.where, "the listed positions are exactly those holding a node", ok, "", key="C11-R7|compute-positions")
+    GI = "bionumpy.genomic_data.genomic_intervals"
+    mem = ix.func(GI, "GenomicLocation.get_windows") if ix.has_func(GI, "GenomicLocation.get_windows") else None
+    if mem is None:
+        cands = [fi for qn, fi in ix.module(GI).functions.items() if qn.endswith(".get_windows") and "Streamed" not in qn]
+        ctx.need(len(cands) == 1, "in-memory get_windows not found")
+        mem = cands[0]
+    stm = ix.func(GI, "GenomicLocationStreamed.get_windows")
+
+    def flanks(fn):
+        out = {}
+        for x in body_walk(fn.node):
+            if isinstance(x, ast.Assign) and isinstance(x.targets[0], ast.Name) and x.targets[0].id in ("l_flank", "r_flank"):
+                out.setdefault(x.targets[0].id, []).append(sym.canon(x.value))
+        return out
+    fm, fs = flanks(mem), flanks(stm)
+    ctx.need(fm and set(fm) == {"l_flank", "r_flank"}, "get_windows: flank assignments not found in the in-memory method")
+    ctx.ob(stm.where, "streamed windows use the same left / right flanks as the in-memory windows (same branches, same expressions)", fm == fs, f"in-memory {fm} streamed {fs}",
+           key="C11-R7|windows-flanks")
+
+    def cols(fn, streamed):
+        out = []
+        for x in body_walk(fn.node):
+            if isinstance(x, ast.Call) and streamed and u(x.func) == "ComputationNode" and len(x.args) == 2 and isinstance(x.args[1], ast.List):
+                out.append((u(x.args[0]), [sym.canon(a) for a in x.args[1].elts]))
+            elif isinstance(x, ast.Call) and not streamed and u(x.func) in ("StrandedInterval", "Interval"):
+                out.append((u(x.func), [sym.canon(a) for a in x.args]))
+        return sorted(out)
+    ctx.ob(stm.where, "streamed windows build the same interval columns (chromosome, position - left, position + right, strand)", cols(mem, False) == cols(stm, True) and bool(cols(mem, False)),
+           f"{cols(stm, True)}", key="C11-R7|windows-columns")
+
+
 RULES = [
     ("C11-R1", r1_lockstep_sources),
     ("C11-R2", r2_graph_lockstep),
@@ -288,4 +353,5 @@ RULES = [
     ("C11-R4", r4_rechunking),
     ("C11-R5", r5_group_join),
     ("C11-R6", r6_streamable),
+    ("C11-R7", r7_unwrap_writeback_twins),
 ]
